@@ -59,6 +59,11 @@ type c05Case struct {
 	// Schedule lists the request index that performs the next session-store operation. Entries naming a request that
 	// cannot move are mapped onto the enabled ones; beyond the end the lowest enabled request moves.
 	Schedule []int `json:"schedule"`
+	// Claims names the variant of the client-chosen time claims carried by the presented value ("" = current time).
+	Claims string `json:"claims,omitempty"`
+	// Hist, when set, makes the case a SEQUENTIAL replay history instead of a schedule: request i presents the same
+	// value Hist[i] seconds (non-decreasing, harness clock) after the first one. Roles and Schedule are unused then.
+	Hist []int `json:"hist,omitempty"`
 }
 
 // ---------------------------------------------------------------------------------------------------------------------
@@ -75,6 +80,58 @@ type c05Store struct {
 	s     *sched.S
 	mu    sync.Mutex
 	ops   []c05Op
+	// harness clock for sequential replay histories: vnow is the time elapsed since the case started, expiry the moment
+	// (on that clock) at which an entry's TTL runs out. Entries are aged by deleting them from the real store once the
+	// harness clock passed their expiry; nothing sleeps. The real go-cache expiry (wall clock) stays in force as well.
+	vnow   time.Duration
+	expiry map[string]time.Duration
+}
+
+const c05DefaultTTL = 15 * time.Minute // what NewInMemorySessionDatabase gives go-cache as default expiration
+
+func (c *c05Store) advanceTo(d time.Duration) {
+	c.mu.Lock()
+	c.vnow = d
+	c.mu.Unlock()
+}
+
+func (c *c05Store) elapsed() time.Duration {
+	c.mu.Lock()
+	defer c.mu.Unlock()
+	return c.vnow
+}
+
+// age deletes the entry when its TTL has run out on the harness clock.
+func (c *c05Store) age(ctx context.Context, key any) {
+	k := fmt.Sprint(key)
+	c.mu.Lock()
+	exp, ok := c.expiry[k]
+	gone := ok && exp <= c.vnow
+	if gone {
+		delete(c.expiry, k)
+	}
+	c.mu.Unlock()
+	if gone {
+		_ = c.inner.Delete(ctx, key)
+	}
+}
+
+func (c *c05Store) noteSet(key any, options []store.Option) {
+	ttl := store.ApplyOptions(options...).Expiration
+	k := fmt.Sprint(key)
+	c.mu.Lock()
+	defer c.mu.Unlock()
+	if c.expiry == nil {
+		c.expiry = map[string]time.Duration{}
+	}
+	switch {
+	case ttl == 0:
+		c.expiry[k] = c.vnow + c05DefaultTTL
+	case ttl < 0: // go-cache: no expiration
+		delete(c.expiry, k)
+	default:
+		c.expiry[k] = c.vnow + ttl
+	}
 }
 
 func (c *c05Store) point(op string, key any) {
@@ -90,18 +147,24 @@ func (c *c05Store) point(op string, key any) {
 
 func (c *c05Store) Get(ctx context.Context, key any) (any, error) {
 	c.point("get", key)
+	c.age(ctx, key)
 	return c.inner.Get(ctx, key)
 }
 func (c *c05Store) GetWithTTL(ctx context.Context, key any) (any, time.Duration, error) {
 	c.point("getttl", key)
+	c.age(ctx, key)
 	return c.inner.GetWithTTL(ctx, key)
 }
 func (c *c05Store) Set(ctx context.Context, key any, value any, options ...store.Option) error {
 	c.point("set", key)
+	c.noteSet(key, options)
 	return c.inner.Set(ctx, key, value, options...)
 }
 func (c *c05Store) Delete(ctx context.Context, key any) error {
 	c.point("del", key)
+	c.mu.Lock()
+	delete(c.expiry, fmt.Sprint(key))
+	c.mu.Unlock()
 	return c.inner.Delete(ctx, key)
 }
 func (c *c05Store) Invalidate(ctx context.Context, options ...store.InvalidateOption) error {
@@ -167,6 +230,9 @@ var c05HolderDID = did.MustParseDID("did:web:example.com:iam:holder")
 const c05VerifierSubject = "verifier"
 const c05HolderSubject = "holder"
 
+// now is the harness clock: the wall clock plus the time that elapsed in a sequential replay history.
+func (fx *c05Fixture) now() time.Time { return time.Now().Add(fx.st.elapsed()) }
+
 func c05NewFixture(s *sched.S) *c05Fixture {
 	fx := &c05Fixture{rep: &c05Reporter{}}
 	fx.ctrl = gomock.NewController(fx.rep)
@@ -227,7 +293,12 @@ type c05Kind struct {
 	defects []string
 	// setup stores the secret (from the test goroutine: not scheduled) and returns the request function plus the
 	// store key suffix that identifies operations on the secret itself.
-	setup func(x *h.Ctx, fx *c05Fixture) (secretKey string, request func(role string, actor int) c05Outcome)
+	setup func(x *h.Ctx, fx *c05Fixture, claims string) (secretKey string, request func(role string, actor int) c05Outcome)
+	// claims lists the variants of client-chosen time claims of the presented value (besides "", the current time).
+	claims []string
+	// window returns how long after a first acceptance a replay of the value must still be refused: the period during
+	// which the value is otherwise valid. 0 = for ever (the value is burned, or the fixture itself enforces the validity).
+	window func(claims string) time.Duration
 }
 
 var c05Kinds = map[string]*c05Kind{}
@@ -262,7 +333,7 @@ func init() {
 	c05Register(&c05Kind{
 		name:    "code",
 		defects: []string{"wrong_client", "wrong_verifier", "missing_client", "missing_verifier"},
-		setup: func(x *h.Ctx, fx *c05Fixture) (string, func(string, int) c05Outcome) {
+		setup: func(x *h.Ctx, fx *c05Fixture, _ string) (string, func(string, int) c05Outcome) {
 			const code = "the-authorization-code"
 			clientID := "did:web:example.com:iam:holder"
 			vpStr := `{"type":"VerifiablePresentation", "id":"vp", "verifiableCredential":{"type":"VerifiableCredential", "id":"vc", "credentialSubject":{"id":"did:web:example.com:iam:holder"}}}`
@@ -366,13 +437,17 @@ func c05Run(x *h.Ctx, c c05Case) {
 	if k == nil {
 		x.Fatalf("unknown kind %q", c.Kind)
 	}
+	if len(c.Hist) > 0 {
+		c05RunHistory(x, c, k)
+		return
+	}
 	n := len(c.Roles)
 	if n < 1 || n > 4 {
 		x.Fatalf("bad number of requests %d", n)
 	}
 	s := sched.New(n, sched.Options{})
 	fx := c05NewFixture(s)
-	secretKey, request := k.setup(x, fx)
+	secretKey, request := k.setup(x, fx, c.Claims)
 	out := make([]c05Outcome, n)
 	tr, err := s.Run(c.Schedule, func(i int) { out[i] = request(c.Roles[i], i) })
 	c05Last.tr, c05Last.err = tr, err
@@ -501,6 +576,176 @@ func c05Run(x *h.Ctx, c c05Case) {
 		x.Fatalf("no request succeeded in a sequential run: fixture problem\n%s", describe())
 	}
 }
+
+// ---------------------------------------------------------------------------------------------------------------------
+// sequential replay histories with client-chosen time claims
+
+// c05ParseClaimsQuiet parses "name=+12s,other=-3s" into durations; malformed parts are skipped.
+func c05ParseClaimsQuiet(claims string) map[string]time.Duration {
+	out := map[string]time.Duration{}
+	for _, part := range strings.Split(claims, ",") {
+		kv := strings.SplitN(part, "=", 2)
+		if len(kv) != 2 {
+			continue
+		}
+		if d, err := time.ParseDuration(kv[1]); err == nil {
+			out[kv[0]] = d
+		}
+	}
+	return out
+}
+
+func c05ParseClaims(x *h.Ctx, claims string) map[string]time.Duration {
+	out := c05ParseClaimsQuiet(claims)
+	if claims != "" && len(out) != len(strings.Split(claims, ",")) {
+		x.Fatalf("malformed claims variant %q", claims)
+	}
+	return out
+}
+
+// c05RunHistory presents the same value len(Hist) times, one request after the other, Hist[i] seconds after the first
+// one on the harness clock (entries of the session store age accordingly, see c05Store; no sleeping, no scheduler).
+// Oracle: two acceptances that are closer together than the period during which the value is otherwise valid
+// (kind.window; 0 = for ever) are a violation.
+func c05RunHistory(x *h.Ctx, c c05Case, k *c05Kind) {
+	n := len(c.Hist)
+	if n > 12 {
+		x.Fatalf("history too long")
+	}
+	for i := range c.Hist {
+		if c.Hist[i] < 0 || (i > 0 && c.Hist[i] < c.Hist[i-1]) {
+			x.Fatalf("history offsets must be non-negative and non-decreasing: %v", c.Hist)
+		}
+	}
+	known := c.Claims == ""
+	for _, v := range k.claims {
+		known = known || v == c.Claims
+	}
+	if !known {
+		x.Fatalf("kind %s has no claims variant %q", c.Kind, c.Claims)
+	}
+	s := sched.New(1, sched.Options{}) // never run: requests are issued from this goroutine, which is no actor
+	fx := c05NewFixture(s)
+	_, request := k.setup(x, fx, c.Claims)
+	out := make([]c05Outcome, n)
+	for i, off := range c.Hist {
+		fx.st.advanceTo(time.Duration(off) * time.Second)
+		out[i] = request("ok", i)
+		if out[i].OK && out[i].Post != nil {
+			if why := out[i].Post(); why != "" {
+				out[i].OK, out[i].Detail = false, out[i].Detail+"; but: "+why
+			}
+		}
+	}
+	if len(fx.rep.msgs) > 0 {
+		x.Fatalf("mock failure: %v", fx.rep.msgs)
+	}
+	var window time.Duration
+	if k.window != nil {
+		window = k.window(c.Claims)
+	}
+
+	x.Class("kind:" + c.Kind)
+	x.Classf("claims:%s:%s", c.Kind, c.Claims)
+	x.Classf("history-length=%d", n)
+	firstOK := -1
+	succ := 0
+	for i, o := range out {
+		if o.OK {
+			succ++
+			if firstOK < 0 {
+				firstOK = i
+			}
+		}
+	}
+	x.Classf("successes=%d", succ)
+	switch {
+	case firstOK < 0:
+		x.Class("value-never-accepted")
+	case firstOK > 0:
+		x.Class("value-first-refused-later-accepted")
+	}
+	if firstOK >= 0 && firstOK < n-1 {
+		// non-trivial: the value was accepted and presented again afterwards
+		x.NonTrivial()
+		gap := time.Duration(c.Hist[firstOK+1]-c.Hist[firstOK]) * time.Second
+		switch {
+		case gap == 0:
+			x.Class("replay-immediately")
+		case window == 0 || gap < window:
+			x.Class("replay-later-inside-validity")
+		default:
+			x.Class("replay-after-validity")
+		}
+	}
+	describe := func() string {
+		var b strings.Builder
+		fmt.Fprintf(&b, "kind %s, client time claims %q, value must be refused for %v after an acceptance (0 = for ever)\n", c.Kind, c.Claims, window)
+		for i, o := range out {
+			fmt.Fprintf(&b, "  t+%ds request %d: ok=%v %s\n", c.Hist[i], i, o.OK, o.Detail)
+		}
+		return b.String()
+	}
+	if c.Claims == "" && !out[0].OK {
+		x.Fatalf("first presentation of a value with current time claims was refused: fixture problem\n%s", describe())
+	}
+	for i := 0; i < n; i++ {
+		for j := i + 1; j < n; j++ {
+			if !out[i].OK || !out[j].OK {
+				continue
+			}
+			gap := time.Duration(c.Hist[j]-c.Hist[i]) * time.Second
+			if window != 0 && gap >= window {
+				x.Class("accepted-again-after-validity(allowed)")
+				continue
+			}
+			when := "immediate"
+			if gap > 0 {
+				when = "delayed"
+			}
+			c05Violate(x, "replay-honoured:"+c.Kind+":"+when, "request %d and request %d (%v later) presenting the same %s were both honoured\n%s", i, j, gap, c.Kind, describe())
+			return
+		}
+	}
+}
+
+// c05Histories is the fixed list of sequential histories: pairs and triples over a menu of gaps that straddle the
+// TTLs in play (s2s nonce 10s, presentation window 5s +- 5s skew, access token / jti 15m), plus a burst of five.
+func c05Histories() [][]int {
+	menu := []int{0, 2, 4, 9, 11, 14, 16, 60, 600, 899, 901, 3600}
+	short := []int{0, 4, 11, 14, 899, 901}
+	var out [][]int
+	for _, g := range menu {
+		out = append(out, []int{0, g})
+	}
+	for _, g1 := range short {
+		for _, g2 := range short {
+			out = append(out, []int{0, g1, g1 + g2})
+		}
+	}
+	out = append(out, []int{0, 0, 0, 0, 0})
+	return out
+}
+
+func c05EnumerateHistories(yield func(c05Case) bool) {
+	for _, name := range c05KindOrder {
+		k := c05Kinds[name]
+		for _, claims := range append([]string{""}, k.claims...) {
+			for _, hist := range c05Histories() {
+				if !yield(c05Case{Kind: name, Claims: claims, Hist: hist}) {
+					return
+				}
+			}
+		}
+	}
+}
+
+// sequential replays: every kind x every variant of the client-chosen time claims x the fixed history list
+func TestVerif_C05_History(t *testing.T) {
+	c05Suppress = true
+	h.Each(t, c05ID, c05EnumerateHistories, c05Run)
+}
+func TestVerifReplay_C05_History(t *testing.T) { h.Replay(t, c05ID, "TestVerif_C05_History", c05Run) }
 
 // ---------------------------------------------------------------------------------------------------------------------
 // enumeration
